@@ -19,13 +19,13 @@ import (
 const verifDir = "/verif"
 
 type Run struct {
-	Harness string // relative to RepoMod/src/, e.g. "reporting.ZZC19K1"
-	Desc    string
-	Bounds  map[string]interface{}
-	Tier    string // "" = both tiers; "thorough" = thorough only; "quick" = quick only
-	Setup   func(ex *eng.Explorer, tier string)
+	Harness            string // relative to RepoMod/src/, e.g. "reporting.ZZC19K1"
+	Desc               string
+	Bounds             map[string]interface{}
+	Tier               string // "" = both tiers; "thorough" = thorough only; "quick" = quick only
+	Setup              func(ex *eng.Explorer, tier string)
 	GlobalWriteMonitor bool // stores to package-level state (outside sync.Once / a held mutex) by code of the repository are violations (C11)
-	PoisonOptional bool // an inconclusive result that is only due to reads of poisoned memory is downgraded to a note (a companion run carries the bounded claim)
+	PoisonOptional     bool // an inconclusive result that is only due to reads of poisoned memory is downgraded to a note (a companion run carries the bounded claim)
 }
 
 type Prop struct {
@@ -73,28 +73,28 @@ type runReport struct {
 }
 
 type checkCtx struct {
-	prop     *Prop
-	tier     string
-	seed     int
-	prog     *eng.Program
-	known    []knownFinding
-	reports  []runReport
-	viol     []eng.Violation
-	knownHit map[string][]eng.Violation
-	samples  []eng.ReplayCase
-	incon    []string
-	notes    []string
-	extraObl int
-	extraDis int
+	prop         *Prop
+	tier         string
+	seed         int
+	prog         *eng.Program
+	known        []knownFinding
+	reports      []runReport
+	viol         []eng.Violation
+	knownHit     map[string][]eng.Violation
+	samples      []eng.ReplayCase
+	incon        []string
+	notes        []string
+	extraObl     int
+	extraDis     int
 	extraSamples []interface{}
 	extraSolverS float64
-	validated int
-	monitored int
-	monitorViol []string
-	violTotal int
-	expected map[string]bool
-	reached map[string]int
-	confirmed int
+	validated    int
+	monitored    int
+	monitorViol  []string
+	violTotal    int
+	expected     map[string]bool
+	reached      map[string]int
+	confirmed    int
 }
 
 func fullName(h string) string { return eng.RepoMod + "/src/" + h }
@@ -198,8 +198,16 @@ func runCheck(id, tier string) int {
 			ex.Workers, _ = strconv.Atoi(w)
 		}
 		ex.Seed = seed
+		// every run ends: a harness that does not finish within its budget is INCONCLUSIVE, never "held"
+		ex.WallBudget = 10 * time.Minute
 		if tier == "thorough" {
 			ex.CrossCheck = true
+			ex.WallBudget = 60 * time.Minute
+		}
+		if b := os.Getenv("GOSYM_WALL_S"); b != "" {
+			if n, err := strconv.Atoi(b); err == nil {
+				ex.WallBudget = time.Duration(n) * time.Second
+			}
 		}
 		for k := range activeKnown {
 			ex.Known[k] = true
@@ -551,29 +559,29 @@ func writeEvidence(c *checkCtx, wall time.Duration, exit int) {
 		}
 	}
 	cov := map[string]interface{}{
-		"states":      maxInt(paths, 1),
-		"transitions": maxInt(decisions, 1),
-		"traces_validated_against_impl": c.validated,
-		"samples":     samples,
-		"evaluations": maxInt(queries+c.extraObl, 1),
-		"distinct_nontrivial": maxInt(paths, 2),
-		"rule": "states = feasible symbolic paths of the harnesses explored to their end (each stands for all inputs satisfying its path condition); transitions = symbolic branch decisions; evaluations = SMT queries discharged; distinct_nontrivial = feasible paths (distinct path conditions) — every one reached at least one assertion or ended in an assumption",
-		"obligations": maxInt(obligations, 1),
-		"discharged":  discharged,
-		"checker_cmd": "z3-new -in (z3 5.1.0); thorough tier re-discharges unsat assertion queries on cvc5 --incremental",
-		"trusted_base": []string{"go/ssa (x/tools v0.38.0) construction", "go/parser + go/types", "z3 5.1.0 / cvc5 1.0", "Go toolchain used for native replay", "intrinsic models listed under stubs (validated natively on every run)"},
-		"explanation": "bounded symbolic execution of the repository's go/ssa with an SMT solver deciding every assertion over all inputs inside the stated bounds; see runs[]",
-		"exhaustive":  exit == 0,
-		"runs":        c.reports,
-		"functions_encoded": fl,
-		"stubs_and_intrinsics": sl,
-		"queries":     map[string]int{"total": queries, "sat": sat, "unsat": unsat, "unknown": unknown},
-		"solver_time_s": solverS,
-		"outside_bounds": c.prop.Outside,
-		"known_findings_reported": len(c.knownHit),
-		"confirmed_violations": c.confirmed,
-		"inconclusive": c.incon,
-		"exit": exit,
+		"states":                             maxInt(paths, 1),
+		"transitions":                        maxInt(decisions, 1),
+		"traces_validated_against_impl":      c.validated,
+		"samples":                            samples,
+		"evaluations":                        maxInt(queries+c.extraObl, 1),
+		"distinct_nontrivial":                maxInt(paths, 2),
+		"rule":                               "states = feasible symbolic paths of the harnesses explored to their end (each stands for all inputs satisfying its path condition); transitions = symbolic branch decisions; evaluations = SMT queries discharged; distinct_nontrivial = feasible paths (distinct path conditions) — every one reached at least one assertion or ended in an assumption",
+		"obligations":                        maxInt(obligations, 1),
+		"discharged":                         discharged,
+		"checker_cmd":                        "z3-new -in (z3 5.1.0); thorough tier re-discharges unsat assertion queries on cvc5 --incremental",
+		"trusted_base":                       []string{"go/ssa (x/tools v0.38.0) construction", "go/parser + go/types", "z3 5.1.0 / cvc5 1.0", "Go toolchain used for native replay", "intrinsic models listed under stubs (validated natively on every run)"},
+		"explanation":                        "bounded symbolic execution of the repository's go/ssa with an SMT solver deciding every assertion over all inputs inside the stated bounds; see runs[]",
+		"exhaustive":                         exit == 0,
+		"runs":                               c.reports,
+		"functions_encoded":                  fl,
+		"stubs_and_intrinsics":               sl,
+		"queries":                            map[string]int{"total": queries, "sat": sat, "unsat": unsat, "unknown": unknown},
+		"solver_time_s":                      solverS,
+		"outside_bounds":                     c.prop.Outside,
+		"known_findings_reported":            len(c.knownHit),
+		"confirmed_violations":               c.confirmed,
+		"inconclusive":                       c.incon,
+		"exit":                               exit,
 		"assert_sites_reached_over_all_runs": c.reached,
 	}
 	ev := map[string]interface{}{
